@@ -404,6 +404,16 @@ class InterpBase(CtxMixin):
         x, seq = first.targets[0].id, first.value.value.id
         inner = body[1:-1]
         bound_names = {n_.id for n_ in ast.walk(t.comparators[0]) if isinstance(n_, ast.Name)}
+        if any(isinstance(n_, ast.Call) for n_ in ast.walk(t.comparators[0])):
+            # a bound recomputed every round (len(seq)) could change if the body grew the sequence through an alias:
+            # only bodies that call no list-mutating method and store into no subscript are converted
+            for st in inner:
+                for n_ in ast.walk(st):
+                    if isinstance(n_, ast.Call) and isinstance(n_.func, ast.Attribute) and n_.func.attr in (
+                            'append', 'extend', 'insert', 'pop', 'remove', 'clear', 'sort', 'reverse'):
+                        return None
+                    if isinstance(n_, ast.Delete):
+                        return None
         for st in inner:
             for n_ in ast.walk(st):
                 if isinstance(n_, (ast.Break, ast.Continue, ast.Return)):
